@@ -54,6 +54,28 @@ CLAIMS = {
         note="Trusted: Lean kernel; axioms propext/Classical.choice/Quot.sound; translator; harness+driver; python unicodedata 14.0 as the reference; std's is_lowercase/is_numeric/"
              "is_alphabetic are model inputs."),
 }
+CLAIMS.update({
+    "C14": dict(
+        technique="Lean 4 theorems about the parser model (markers, splitting, escape grammar) + exhaustive/random model-implementation correspondence with grammar oracles",
+        text="Partial proof. Theorems: marker table (negation, kinds, escapes), a text whose spaces are all escaped is a single atom (splitting only at unescaped whitespace, "
+             "for every text), replacing escaped spaces inverts escaping for every text (ASCII path), reparse = parse (the model is a function). The complete literal round trip "
+             "through Atom::parse for both paths, smart case/normalization and case-folded storage are evaluated as oracle clauses on the implementation's atoms for every "
+             "generated pattern, including all 7381 texts of length <= 4 over {a B ! ^ ' $ \\ space ä}; model = implementation on all of them (both new_inner paths).",
+        note="Trusted: Lean kernel, axioms propext/Classical.choice/Quot.sound, harness+driver. Grapheme segmentation is a model input; private flags are read from Debug output."),
+    "C15": dict(
+        technique="Lean 4 theorems (conjunction/sum/concatenation, negation, flag overwrite, sorted stable permutation) + correspondence on random atom lists",
+        text="Theorems over the model for every atom list, haystack and configuration, with the matcher calls abstract: a negated atom matches iff its inner match fails and "
+             "contributes nothing; a pattern matches iff all atoms match, its score is the sum and its indices the concatenation in atom order; the empty pattern gives Some(0); "
+             "each atom overwrites ignore_case/normalize so the result is independent of the matcher's previous flags; match_list is a permutation of the matching inputs in "
+             "non-increasing score order with equal scores kept in input order. Tied to the code by correspondence on random patterns sharing one Matcher.",
+        note="Trusted: Lean kernel, axioms propext/Classical.choice/Quot.sound, harness+driver; the matcher calls are those of C01-C05 (same model). MultiPattern::score (columns) is the same fold (src/pattern.rs) and is exercised through the nucleo-level checks."),
+    "C17": dict(
+        technique="Lean 4 theorems about the conversion model + correspondence on grapheme-rich strings (segmentation as input)",
+        text="Theorems: the ASCII form is chosen iff the string is ASCII without CR LF; its bytes are the string; otherwise one character per cluster (first code point, LF for CR LF); "
+             "length = number of clusters (ASCII branch under the explicit segmentation hypothesis AsciiSeg); slice/get/len agree with the content. All six constructors, a dirty "
+             "reused buffer, chars/rev/Display and random slices are compared with the model and with the content on every generated string.",
+        note="Trusted: Lean kernel, axioms, harness+driver. The unicode-segmentation crate's cluster boundaries are an input; AsciiSeg is a hypothesis exercised exhaustively for short ASCII strings."),
+})
 MATCHER_IDS = {"C01", "C02", "C03", "C04", "C05", "C10"}
 
 
